@@ -171,3 +171,22 @@ func (it *gomapIter) next() tuple {
 	}
 	return tuple{false, nil, nil}
 }
+
+// clone returns a shallow copy of the map (same keys and values, fresh entry cells).
+func (m *gomap) clone(fr *frame) *gomap {
+	c := &gomap{keyType: m.keyType, index: map[any]*mapEntry{}, created: m.created}
+	for _, e := range m.entries {
+		if e.deleted {
+			continue
+		}
+		ne := &mapEntry{key: e.key, val: deepCopy(e.val)}
+		c.entries = append(c.entries, ne)
+		if ck, ok := canonKey(e.key); ok {
+			c.index[ck] = ne
+		} else {
+			c.symKeys++
+		}
+		c.n++
+	}
+	return c
+}
